@@ -171,16 +171,27 @@ BadCall(e, r) ==
   \cup (IF cfg.kind = "alt" /\ "twin" \in DOMAIN e
           THEN (IF Confined(e, cfg.prefix) THEN {} ELSE {"confined"})
                \cup (IF OutsideCore(e.outside, cfg.prefix) = outs THEN {} ELSE {"outside"})
-               \* transfers with a wrong-typed source are left unspecified by the contract (regime inv, any outcome):
-               \* the twin comparison is not applied to them
-               \cup (IF ~twinsync \/ r.allowed = AnyErr \cup {"ok"} \/ (e.twin.res.c = e.res.c /\ e.twin.res.val = e.res.val /\ ObsCore(e.twin.obs) = ObsCore(o)) THEN {} ELSE {"twin"})
+               \* the twin comparison applies to EVERY call, also those Level A leaves unspecified (wrong-typed
+               \* transfer sources): whatever the underlying filesystem does with P/q, the altroot does with q
+               \cup (IF ~twinsync \/ (e.twin.res.c = e.res.c /\ e.twin.res.val = e.res.val /\ ObsCore(e.twin.obs) = ObsCore(o)) THEN {} ELSE {"twin"})
           ELSE {})
 
 IsEv(k) == l <= Len(Rec) /\ Rec[l].ev = k
 
+\* ------------------------------------------------------------ what was judged (vacuity guard)
+\* TLC registers (single worker) count how often each part of the contract was actually applied;
+\* the totals are printed with DONE and end up in the evidence.
+CN == [init |-> 101, union |-> 102, view |-> 103, truth |-> 104, call |-> 105, spec_ok |-> 106, spec_fail |-> 107,
+       pinned_class |-> 108, inv |-> 109, lower |-> 110, twin |-> 111, agree |-> 112, settime_ok |-> 113,
+       level_b |-> 114, fault |-> 115, fault_err |-> 116, fault_ok |-> 117, err_labelled |-> 118, observer_fault |-> 119]
+Bump(i) == TLCSet(i, TLCGet(i) + 1)
+BumpIf(c, i) == IF c THEN Bump(i) ELSE TRUE
+Counters == [x \in DOMAIN CN |-> TLCGet(CN[x])]
+
 TrInit ==
   /\ l = 1 /\ world = EmptyTree /\ cfg = [kind |-> "-", name |-> "-", sup |-> {}, ro |-> FALSE, prefix |-> <<>>]
   /\ tainted = FALSE /\ seg = 0 /\ lay = <<>> /\ outs = {} /\ twinsync = FALSE /\ pwo = {}
+  /\ \A x \in DOMAIN CN : TLCSet(CN[x], 0)
 
 TrSegInit ==
   /\ IsEv("init")
@@ -207,6 +218,7 @@ TrSegInit ==
      /\ pwo' = IF isovl /\ "wo" \in DOMAIN e THEN {x \in Range(e.wo) : x \in Universe} ELSE {}
      /\ tainted' = (bad # {})
      /\ seg' = seg + 1
+     /\ Bump(CN.init) /\ BumpIf(isovl, CN.union) /\ BumpIf(isalt, CN.view) /\ BumpIf("truth" \in DOMAIN e, CN.truth)
      /\ IF bad = {} THEN TRUE
         ELSE Report("VIOL", [l |-> l, seg |-> seg + 1, secondary |-> FALSE, conjs |-> bad,
                              sig |-> [conj |-> "init", op |-> "init", kind |-> e.kind, cfg |-> e.cfg,
@@ -229,6 +241,17 @@ TrCall ==
      /\ (IF cfg.kind = "ovl" /\ "wo" \in DOMAIN e /\ lay # <<>> /\ e.op \in OvlOps /\ ~tainted /\ bad = {} /\ Drifted(e)
          THEN Report("DRIFT", [l |-> l, seg |-> seg, op |-> e.op, cfg |-> cfg.name, model |-> "Overlay"]) ELSE TRUE)
      /\ tainted' = (tainted \/ bad # {})
+     /\ Bump(CN.call)
+     /\ BumpIf(r.regime = "spec" /\ e.res.c = "ok" /\ "ok" \in r.allowed, CN.spec_ok)
+     /\ BumpIf(r.regime = "spec" /\ "ok" \notin r.allowed, CN.spec_fail)
+     /\ BumpIf(Cardinality(r.allowed) = 1 /\ "ok" \notin r.allowed, CN.pinned_class)
+     /\ BumpIf(r.regime = "inv", CN.inv)
+     /\ BumpIf(cfg.kind = "ovl" /\ "layers" \in DOMAIN e /\ Len(e.layers) > 1, CN.lower)
+     /\ BumpIf(cfg.kind = "alt" /\ "twin" \in DOMAIN e /\ twinsync, CN.twin)
+     /\ BumpIf("other" \in DOMAIN e /\ twinsync /\ r.allowed # AnyErr \cup {"ok"} /\ e.op # "set_time", CN.agree)
+     /\ BumpIf(e.op = "set_time" /\ e.res.c = "ok", CN.settime_ok)
+     /\ BumpIf(cfg.kind = "ovl" /\ "wo" \in DOMAIN e /\ lay # <<>> /\ e.op \in OvlOps /\ ~tainted /\ bad = {}, CN.level_b)
+     /\ BumpIf(e.res.c \in ErrClasses, CN.err_labelled)
      /\ IF bad = {} THEN TRUE
         ELSE Report("VIOL", [l |-> l, seg |-> seg, secondary |-> tainted, conjs |-> bad,
                              sig |-> Sig(CHOOSE c \in bad : TRUE, e, r)])
@@ -273,6 +296,7 @@ TrFault ==
                         /\ ~(\A i \in DOMAIN e.layers : i > 1 => LayerCore(e.layers[i]) = LayerCore(lay[i])) THEN {"lower"} ELSE {}) IN
      /\ world' = TreeOfObs(o)
      /\ tainted' = TRUE           \* one faulted operation per segment
+     /\ Bump(CN.fault) /\ BumpIf(e.res.c \in ErrClasses, CN.fault_err) /\ BumpIf(e.res.c = "ok", CN.fault_ok) /\ BumpIf(isobs, CN.observer_fault)
      /\ IF bad = {} THEN TRUE
         ELSE Report("VIOL", [l |-> l, seg |-> seg, secondary |-> tainted, conjs |-> bad,
                              sig |-> [conj |-> CHOOSE c \in bad : TRUE, op |-> e.op, kind |-> cfg.kind, cfg |-> cfg.name, fault |-> TRUE,
@@ -286,6 +310,6 @@ TrSpec == TrInit /\ [][TrNext]_vars
 
 \* the whole trace must have been consumed (a malformed event is a tool error, not a violation)
 Consumed ==
-  IF TLCGet("stats").diameter - 1 = Len(Rec) THEN Report("DONE", [events |-> Len(Rec)])
+  IF TLCGet("stats").diameter - 1 = Len(Rec) THEN Report("DONE", [events |-> Len(Rec), judged |-> Counters])
   ELSE Report("STUCK", [at |-> TLCGet("stats").diameter, of |-> Len(Rec)]) /\ FALSE
 =============================================================================
